@@ -251,7 +251,11 @@ func c05Leaf(k int) fFilter {
 }
 
 // c05Row builds the stored row and its cells in row order.
-func c05Row(s *server, key []byte) []fCell {
+func c05Row(s *server, key []byte) []fCell { return c05RowShaped(s, key, false) }
+
+// c05RowShaped: with wide, both families are populated (f:q0 1..2 versions, f:q1 0..1, g:q0 1..2,
+// g:q1 0..1), so that a position inside a multi-version column has later families behind it.
+func c05RowShaped(s *server, key []byte, wide bool) []fCell {
 	quals := c01Keys("qual", 2, 1)
 	var cells []fCell
 	row := &btpb.Row{Key: key}
@@ -268,7 +272,13 @@ func c05Row(s *server, key []byte) []fCell {
 				max = 0
 			}
 			n := 0
-			if max > 0 {
+			if wide {
+				if q == 0 {
+					n = vChoice("row.n", 1, 2)
+				} else {
+					n = vChoice("row.n", 0, 1)
+				}
+			} else if max > 0 {
 				n = vChoice("row.n", 0, max)
 			}
 			if n == 0 {
@@ -418,6 +428,15 @@ func H_C05_leaf() {
 	c05Check(s, key, f, cells, "leaf")
 }
 
+// H_C05_families: the position-counting leaves (per-column limit, per-row limit, per-row offset)
+// and the column range over a row that spans both families.
+func H_C05_families() {
+	s, key := c05Server()
+	cells := c05RowShaped(s, key, true)
+	f := c05Leaf([]int{4, 5, 6, 7}[vChoice("leaf", 0, 3)])
+	c05Check(s, key, f, cells, "families")
+}
+
 // c05Basis is the leaf basis used in compositions (quick: a 6-leaf basis).
 func c05BasisLeaf(name string) fFilter {
 	if vBound("full-basis", 0, 1) == 1 {
@@ -558,6 +577,7 @@ func H_C05_condition() {
 
 func init() {
 	vHarnesses["H_C05_leaf"] = H_C05_leaf
+	vHarnesses["H_C05_families"] = H_C05_families
 	vHarnesses["H_C05_chain"] = H_C05_chain
 	vHarnesses["H_C05_interleave"] = H_C05_interleave
 	vHarnesses["H_C05_condition"] = H_C05_condition
